@@ -88,6 +88,19 @@ def int_pool(rng, size, upto, classes):
         pool.append(str(k))
     return pool
 
+def wide_int_pool(rng, size, classes):
+    """Int keys that collide at every table size up to 101 AND differ pairwise by non-zero multiples of 2^32 (half of them) or by
+    2^31-ish amounts: a key comparison narrower than 64 bits (a difference truncated to int, a 32-bit compare) merges or misorders them"""
+    m = LCM * 2**32
+    maxmul = (2**62) // m
+    pool = []
+    for i in range(size):
+        c = classes[i % len(classes)]
+        j = (i // len(classes)) % maxmul
+        pool.append(str(c + m * j if i % 4 != 3 else c + LCM * (2**31 + j)))
+        if rng.random() < 0.15: pool.append(str(-(c + m * j) - 1))
+    return pool
+
 def probe_pool(rng, size, mode, upto=101):
     """probe keys `id:hash` with an adversarial hash function of the id"""
     m = modulus(upto)
@@ -156,7 +169,7 @@ class C02(Spec):
                   'harness/driver comparison (testing) as the link between src/Table.c and the model; memory layout of a slot, `assign`/`destruct` '
                   'of elements and hash()/eq() of Int/String are taken as functions (C09/C10/C05 cover them). Not covered: assign(t, t) (known '
                   'finding), Table_New with initial pairs, Table_Cmp/Hash/Show (C09/C10), allocation failure.')
-    rule = ('op files over 8 table variables: (a) Int keys from 1-3 residue classes modulo lcm(5,11,23,53,101)[*197*389...] so that every class is '
+    rule = ('op files over 8 table variables: (a) Int keys from 1-3 residue classes modulo lcm(5,11,23,53,101)[*197*389...] (in a third of the cases: keys that in addition differ by multiples of 2^32) so that every class is '
             'one collision cluster at every table size passed through, phases grow / churn (new keys, updates biased to recently inserted = '
             'non-first cluster members, removals of present and absent keys, get/mem/len/iter/riter) / drain / refill; (b) probe element type with '
             'adversarial hash functions (constant, two values, home = last slots so clusters wrap, adjacent homes, 2^64-1); (c) String keys '
@@ -192,6 +205,7 @@ class C02(Spec):
                 classes = rng.sample([0, 1, 2, 3, 4, LCM - 1, LCM - 2, 100, -1 - LCM, -3], ncls)
                 upto = 101 if target < 90 else (389 if target < 300 else 1259)
                 pool = int_pool(rng, int(target * 1.6) + 4, upto, classes)
+                if target <= 90 and rep % 3 == 1: pool = wide_int_pool(rng, int(target * 1.6) + 4, classes)
                 t = rng.randrange(NT)
                 g.churn(t, pool, target * 4 + 30, target)
                 g.emit(f'iter {t}'); g.emit(f'riter {t}')
